@@ -216,6 +216,7 @@ def parse_result(text):
     m = re.search(r"Verification Time: ([0-9.]+)s", text)
     if m:
         res["time_s"] = float(m.group(1))
+    res["raw_tail"] = text[-600:]
     res["cbmc_error"] = bool(re.search(r"CBMC failed|Status: ERROR|out of memory|std::bad_alloc|timed out|TIMEOUT", text, re.I)) and not res["checks"]
     return res
 
@@ -256,8 +257,8 @@ def classify(h, res, known_tags):
         out["state"] = "violation"
     elif out["unwind"]:
         out["state"] = "bound_too_small"
-    elif res["verdict"] is None:
-        out["state"] = "inconclusive"
+    elif res["verdict"] != "SUCCESSFUL" or out["n_checks"] == 0:
+        out["state"] = "timeout" if "timed out" in res.get("raw_tail", "") else "inconclusive"
     elif out["covers_total"] - out["covers_sat"] > h.expect_unsat_covers:
         out["state"] = "vacuous"
     elif out["n_undetermined"]:
